@@ -367,7 +367,7 @@ def run_case(case, work, rec):
             ci += 1
             as_callable = (ci % 3 == 0) and kind.startswith("user")
             P = rng.choice([1.0, 5.0]) if case["kind"] == "thermo" else None
-            out = os.path.join(work, f"out{ci}")
+            out = workload.out_path(work, f"out{ci}", ci, rec)
             key = (digest, kind, kept, mode, iso, as_callable, P)
             descr = (f"recipe={kind}{' (callable)' if as_callable else ''} kept_fields={kept!r} "
                      f"mode={mode}{'/' + iso if iso else ''} pressure={P}")
